@@ -81,8 +81,13 @@ func vfTokForState(r *vfRand, st string) *vfTokSpec {
 
 func vfGenC01(r *vfRand, id int) *vfWorldCase {
 	cfg := vfWorldCfg{PKCE: r.chance(1, 2), ForceHTTPS: r.chance(1, 2), EndSession: true, GraceSec: 60}
-	if r.chance(2, 3) {
+	switch r.intn(4) {
+	case 0:
 		cfg.Excluded = []string{"/public", "/health"}
+	case 1:
+		cfg.Excluded = []string{"/api/public/", "/static/"}
+	case 2:
+		cfg.Excluded = []string{"/assets/", "/health"}
 	}
 	cs := &vfWorldCase{ID: id, Kind: "gate", Script: vfScript{Cfg: cfg, Browsers: 2}}
 	var acts []vfAction
@@ -121,7 +126,8 @@ func vfGenC01(r *vfRand, id int) *vfWorldCase {
 	}
 	// the probing requests
 	paths := []string{"/", "/app", "/api/x", "/public", "/public/a.css", "/x/public", "/publicity", "/health", "/healthz", "/favicon.ico",
-		vfCallbackPath, vfLogoutPath, "/app?next=/public"}
+		vfCallbackPath, vfLogoutPath, "/app?next=/public", "/api/public/docs", "/api/public", "/api/publications", "/api/public-admin/users",
+		"/static/app.js", "/static", "/staticfiles/x", "/assets/logo.png", "/assets", "/assetsmanager", "/favico", "/Public/x", "/api//public/"}
 	for i := 1 + r.intn(3); i > 0; i-- {
 		p := paths[r.intn(len(paths))]
 		acts = append(acts, vfReqAct(0, 0, vfPick(r, "GET", "GET", "POST", "OPTIONS", "HEAD", "PUT", "DELETE"), p, 1, func(q *vfReq) {
@@ -260,6 +266,24 @@ func vfGenC04(r *vfRand, id int) *vfWorldCase {
 	acts = append(acts, vfAction{Kind: "authorize", Browser: 0})
 	swap()
 	acts = append(acts, vfAction{Kind: "callback", Browser: 0, Slot: slot(), Script: sc})
+	if r.chance(1, 2) {
+		// the login token is already inside the grace period: the first request replaces it by a fresh,
+		// long-lived one (of another size); from then on no further provider round-trip is due
+		spec.ExpIn = int64(cfg.GraceSec) - 1
+		if spec.ExpIn < 20 {
+			spec.ExpIn = 20
+			cs.Script.Cfg.GraceSec = 60
+		}
+		fresh := vfSizedTok(r, vfSizes[r.intn(len(vfSizes))], r.chance(2, 3))
+		if spec.Jti != "" {
+			fresh.Jti = fmt.Sprintf("jti-%x", r.next())
+		}
+		rs := vfOkScript(fresh)
+		rs.Rotate = r.chance(1, 2)
+		if !sc.NoRefresh {
+			acts = append(acts, vfReqAct(0, slot(), "GET", "/app/first", 1, func(q *vfReq) { q.Script = rs }))
+		}
+	}
 	for i := 1 + r.intn(12); i > 0; i-- {
 		swap()
 		acts = append(acts, vfReqAct(0, slot(), vfPick(r, "GET", "GET", "POST", "HEAD", "PUT"), vfPaths[r.intn(len(vfPaths))], 1, func(q *vfReq) {
